@@ -297,6 +297,44 @@ def c07e(ctx):
         ctx.fail(o2, "(program)", "expected >= 4 Encoder::encode/Decoder::decode uses in the fjall backend, found %d" % m)
 
 
+def c07h(ctx):
+    """`commit()` is an ordinary future: the caller may drop it at its suspension point.  The session's batch (new epoch, input
+    values, dirty marks) exists only inside that future; if it is dropped there the running engine keeps the new inputs in
+    its caches while the store never receives them - and because the batch's epoch number never arrives at the committer,
+    every later batch is held back too.  The work therefore runs in a block driven through guarded() (finished by a
+    detached task on drop), and `comitted` - which switches off the Drop fallback - is set inside that block."""
+    prog = ctx.prog
+    o = ctx.ob("C07.h", "InputSession::commit/runs-to-completion", "K3", "InputSession::commit calls commit_internal and sets `comitted` only inside the block it hands to guarded()")
+    cands = [x for x in prog.find(r"^InputSession::commit::\{closure#0\}$")]
+    if len(cands) != 1:
+        ctx.fail(o, "(program)", "anchor missing: InputSession::commit (found %d)" % len(cands))
+        return
+    b = ctx.touch(cands[0])
+    g = b.calls_to(r"engine::guard::GuardExt::guarded$")
+    direct = b.calls_to(r"InputSession::<C>::commit_internal$|InputSession<C>>::commit_internal$")
+    o.sites = len(g) + len(direct)
+    child = None
+    for s_ in g:
+        for x in df.origins_of_operand(b, s_.node["args"][0]):
+            if x.kind == "agg" and x.site.node["rv"].get("ak") == "coroutine":
+                child = prog.bodies.get(x.site.node["rv"].get("def"))
+    if direct or child is None:
+        ctx.fail(o, direct[0] if direct else Site(b, 0, 0), "InputSession::commit runs commit_internal in its own, droppable future (not inside a guarded() block): a commit() dropped at its "
+                 "suspension point loses the session's batch - the engine goes on with the new inputs, the store never gets them and every later batch waits for the missing epoch")
+        return
+    ctx.touch(child)
+    inner = child.calls_to(r"commit_internal$")
+    o.sites += len(inner)
+    if len(inner) != 1:
+        ctx.fail(o, Site(child, 0, 0), "the guarded block of InputSession::commit does not call commit_internal exactly once (%d)" % len(inner))
+    # the flag that disables the Drop fallback is written inside the block, not before it
+    for body, where in ((b, "before the guarded block"),):
+        for st_site in body.sites():
+            n_ = st_site.node
+            if not st_site.is_term and n_.get("k") == "assign" and any(str(e).startswith("f:") and "comitted" in str(e) for e in n_["lhs"][1]):
+                ctx.fail(o, st_site, "InputSession::commit sets `comitted` %s: Drop then does nothing for a commit() that is dropped before its block has run" % where)
+
+
 def run(ctx):
     from . import C10
     ctx.run_clause("C07.a", c07a)
@@ -315,6 +353,7 @@ def run(ctx):
     ctx.run_clause("C07.c", c07c)
     ctx.run_clause("C07.d", c07d)
     ctx.run_clause("C07.e", c07e)
+    ctx.run_clause("C07.h", c07h)
     # the stored image is reused only if it can be decoded: a persisted value with a repeated interned handle is written as
     # Source + References, and the decoder must register the Source with the interner (C15.c, C15.a), evaluated as C07.g
     from . import C15
